@@ -12,13 +12,13 @@ def unify_nontrivial(case):
 
 JOBS = {
     "unify-plain": dict(module="MC_Unify", constants={"Slice": "plain"}, invariants=UNIFY_INV,
-                        nontrivial=unify_nontrivial, timeout={"quick": 300, "thorough": 1800}),
+                        nontrivial=unify_nontrivial, timeout={"quick": 900, "thorough": 1800}),
     "unify-laws": dict(module="MC_Unify", constants={"Slice": "laws"}, invariants=UNIFY_INV,
-                       nontrivial=unify_nontrivial, timeout={"quick": 300, "thorough": 900}),
+                       nontrivial=unify_nontrivial, timeout={"quick": 900, "thorough": 900}),
     "unify-sess": dict(module="MC_Unify", constants={"Slice": "sess"}, invariants=UNIFY_INV,
-                       nontrivial=unify_nontrivial, timeout={"quick": 300, "thorough": 1800}),
+                       nontrivial=unify_nontrivial, timeout={"quick": 900, "thorough": 1800}),
     "unify-fn": dict(module="MC_Unify", constants={"Slice": "fn"}, invariants=UNIFY_INV,
-                     nontrivial=unify_nontrivial, timeout={"quick": 300, "thorough": 900}),
+                     nontrivial=unify_nontrivial, timeout={"quick": 900, "thorough": 900}),
     "unify-arith": dict(module="MC_Unify", constants={"Slice": "arith"}, invariants=UNIFY_INV,
                         nontrivial=unify_nontrivial, timeout={"quick": 900, "thorough": 3000}),
 }
@@ -59,6 +59,9 @@ JOBS["session"] = dict(module="MC_Session", constants=dict(Slice="session", Dept
                                                            Bug_OrTailAfterCut="FALSE", Bug_NotStaysArmed="FALSE", Bug_StaleStopFlag="FALSE"),
                        subst=BIP_SUBST, invariants=["EachRunIsItsOwnSLD", "NoSpuriousTimeout", "Terminates", "Emit"], constraint="WithinBudget",
                        timeout={"quick": 1200, "thorough": 3600})
+
+JOBS["knowledge"] = dict(module="MC_Knowledge", constants=dict(Slice="knowledge", Depth=12), subst=BIP_SUBST,
+                         invariants=["KBIsHistory", "KeysApart", "NoEmptyEntry", "FlatEquivalent", "Emit"], timeout={"quick": 900, "thorough": 3600})
 
 TIMER_INV = ["NoFalseTimeout", "RealAnswers", "FastUndisturbed", "NoLateFire", "CancelReturns", "Emit"]
 JOBS["timer"] = dict(module="MC_Timer", constants=dict(Slice="timer", NQ=2, GenerationFix="TRUE"), invariants=TIMER_INV,
@@ -117,8 +120,8 @@ PROPS = {
     "C21": dict(jobs=["reader-layout", "solver-andor"], level="model_checking",
                 rule="(solver-andor: every program of that slice which has a source text is written to a file, one clause per line: the loaded knowledge base must be the one parse_rule gives clause by clause) 8 programs of 1-3 rules (facts with spaces in atoms, float literals, infix = + - > >= <, lists, disjunction, short facts) x every layout with at most 2 (thorough 3) deviations from one-rule-per-line: line break / indented break / tab / blank line after any continuation character, two rules on one line, trailing # % // comments and comment lines outside brackets; TLC runs the Reader machine over each layout (ReaderCorrect) and the real loader must produce the knowledge base of parse_rule on each rule",
                 assumptions=["pieces (where a line may legally end) are written out per rule in MC_Reader.tla; the harness joins them with single spaces to obtain the canonical rule text"]),
-    "C22": dict(jobs=["session"], level="model_checking",
-                rule="all histories of 1-2 (thorough 3) episodes over 4-6 queries x 8-14 call lists (next_solution x4 incl. re-asks after exhaustion, solve x3, solve_all, mixes, and solve / solve_all calls during which the query timer fires before the 1st..5th count_rules()); every query is built with make_query + make_base_node only; TLC checks EachRunIsItsOwnSLD on Session.tla and the history is replayed with the virtual timer hook",
+    "C22": dict(jobs=["session", "trace-solver"], level="model_checking",
+                rule="(trace-solver: the 250 / 5000 random programs are recorded one after the other in ONE process, each query built with make_query(); a run that Solver.tla rejects there but accepts when recorded alone in a fresh process depended on its history) all histories of 1-2 (thorough 3) episodes over 4-6 queries x 8-14 call lists (next_solution x4 incl. re-asks after exhaustion, solve x3, solve_all, mixes, and solve / solve_all calls during which the query timer fires before the 1st..5th count_rules()); every query is built with make_query + make_base_node only; TLC checks EachRunIsItsOwnSLD on Session.tla and the history is replayed with the virtual timer hook",
                 assumptions=["a query is not resumed after a later query has been built", "calls made on a query after one of its own calls timed out are unconstrained",
                              "the timer's firing point is virtual (a hook in count_rules()); real-time firing is covered by the C23 timer slices"]),
     "C23": dict(jobs=["timer", "timer3", "session"], level="model_checking",
@@ -170,6 +173,12 @@ PROPS["X01"] = dict(jobs=["solver-time"], level="model_checking",
                     rule="time(G) around calls, conjunctions, disjunctions, printing and failing goals and not(...), alone / right and left of multi-answer goals / in a disjunction / nested / under not: "
                          "G is asked once, the elapsed time is written when the search for its first answer ends, a second request fails silently (Solver.tla TimeCall / TimeResult against SLD.tla)",
                     assumptions=["the text written by time(...) is compared up to the two numbers", "cut inside time(...) is outside every claim"])
+
+PROPS["X02"] = dict(jobs=["knowledge"], level="model_checking",
+                    rule="a knowledge base built up in batches: every sequence of 1-3 (thorough 4) clauses over a pool (p/1 facts and a rule, p/2 fact and rule, q/1 facts) divided into batches in every way; "
+                         "TLC steps add_rules' loop (Knowledge.tla: KBIsHistory, KeysApart, NoEmptyEntry, FlatEquivalent); the real knowledge base is built batch by batch from constructed rules, from parsed rules "
+                         "and from one source file per batch, and count_rules / get_rule / format_kb and the answers of four queries are compared",
+                    assumptions=[])
 
 LEVEL_TEXT = ("TLC explores the relevant state machine of the TLA+ specification exhaustively over a bounded universe, checks the property as "
               "invariants of the specification against an independent declarative definition in the same modules, and every explored behaviour "
